@@ -160,6 +160,11 @@ class ModelWorld(engine.World):
         p_rebuild = 0.7
         if not any(f.startswith("weights") for f in fmts):
           fmts.append(p.choice(["weights_h5", "weights_tf", "weights_v3"]))
+    if getattr(builder, "can_defer", lambda sp: False)(spec):
+      # Models that are unbuilt until first called: the restart of interest is
+      # "construct again, load the TF-format checkpoint, then call".
+      p_rebuild = 0.75
+      fmts = ["weights_tf", "weights_tf", p.choice(list(FORMATS))]
     if getattr(builder, "deferred_strictness", lambda sp: False)(spec):
       # Strictness is only promised after finalize_constraints(): make sure
       # histories contain enough of them to have anything to check.
